@@ -37,7 +37,7 @@ ASSUMPTIONS = [
     "float32 storage of the note array is the precision of the rebuild comparison",
 ]
 COMPONENTS = {"real": ["partitura.performance (PerformedPart, PerformedNote, adjust_offsets_w_sustain, Performance)", "partitura.io.importmidi.load_performance_midi", "utils.music.seconds_to_midi_ticks", "mido"], "stub": ["SimFS", "independent SMF writer (model/ref_smf.py)"]}
-PROBES = ("meta_only_track", "part_without_notes", "reclocked", "pedal_extended_note", "restrike_clipped", "illegal_edit_rejected", "threshold_127", "no_pedal_events", "pedal_event_at_release", "overlapping_equal_pitch", "threshold_raised", "performance_wrap", "rebuild")
+PROBES = ("meta_only_track", "two_pedal_events_at_one_time", "part_without_notes", "reclocked", "pedal_extended_note", "restrike_clipped", "illegal_edit_rejected", "threshold_127", "no_pedal_events", "pedal_event_at_release", "overlapping_equal_pitch", "threshold_raised", "performance_wrap", "rebuild")
 
 
 # ----------------------------------------------------------------------------
@@ -360,7 +360,8 @@ def execute(case, keep_log=False):
                     outcome = [what, raised]
                 elif k == "add_control":
                     if op["number"] == 64 and any(c.get("number") == 64 and c["time"] == op["time"] for c in pp.controls):
-                        continue
+                        # two pedal events at one moment: the later one in the stream is in force afterwards
+                        res.probe("two_pedal_events_at_one_time")
                     pp.controls.append({"type": "sustain_pedal" if op["number"] == 64 else "soft_pedal", "number": op["number"], "time": op["time"], "value": op["value"], "track": 0, "channel": 0})
                     edited_since = True
                     outcome = [op["time"], op["value"]]
